@@ -70,7 +70,7 @@ class S:
             used = w.allocation(c, p, rc, present=pres)
             self.alloc[(c, p, rc)] = (pres, used)
         self.cons = {}
-        for c, (proj, user, ct) in {1: (1, 1, 1), 2: (2, 2, None)}.items():
+        for c, (proj, user, ct) in {1: (1, 1, 1), 2: (1, 2, None)}.items():
             bits = [v[0] for k, v in self.alloc.items() if k[0] == c]
             pres = any(bits) if conc else Or(*bits)
             self.cons[c] = w.consumer(c, present=pres, project=proj,
@@ -237,7 +237,7 @@ def read_allocations(ctx, s):
             eq_or_violation(ctx, 'consumer-view', js['consumer_generation'],
                             cons['generation'], 'consumer generation c%d' % c)
             eq_or_violation(ctx, 'consumer-view', js['project_id'],
-                            'proj' if c == 1 else 'proj2', 'project c%d' % c)
+                            'proj', 'project c%d' % c)
             eq_or_violation(ctx, 'consumer-view', js['user_id'],
                             'user' if c == 1 else 'user2', 'user c%d' % c)
             eq_or_violation(ctx, 'consumer-view', js['consumer_type'],
@@ -268,44 +268,67 @@ def read_allocations(ctx, s):
                                 'consumer generation in provider view')
 
 
+def _tot(s, rc, consumers):
+    ts = [z3.If(zbool(pr), to_z3(u), 0)
+          for (cc, p, r2), (pr, u) in s.alloc.items()
+          if cc in consumers and r2 == rc]
+    return z3.Sum(*(ts + [z3.IntVal(0)]))
+
+
+def _any(s, rc, consumers):
+    return Or(*[pr for (cc, p, r2), (pr, u) in s.alloc.items()
+                if cc in consumers and r2 == rc])
+
+
 def read_totals(ctx, s):
-    for proj, user, c in (('proj', None, 1), ('proj2', 'user2', 2),
-                          ('proj', 'user2', None)):
-        q = 'project_id=' + proj + ('&user_id=' + user if user else '')
+    """c1 = (proj, user, INSTANCE), c2 = (proj, user2, no type)"""
+    for q, members in (('project_id=proj', (1, 2)),
+                       ('project_id=proj&user_id=user', (1,)),
+                       ('project_id=proj&user_id=user2', (2,)),
+                       ('project_id=proj2', ())):
         r = app.call('GET', '/usages?' + q, version='1.36')
         js = r.json['usages']
         for rc in RCS:
-            items = [(pr, u) for (cc, p, r2), (pr, u) in s.alloc.items()
-                     if cc == c and r2 == rc]
-            anyp = Or(*[pr for pr, u in items]) if items else False
-            presence(ctx, 'project-usage', rc in js, anyp,
+            presence(ctx, 'project-usage', rc in js, _any(s, rc, members),
                      '%s in usages of %s' % (rc, q))
             if rc in js:
-                tot = z3.Sum(*[z3.If(zbool(pr), to_z3(u), 0)
-                               for pr, u in items] + [z3.IntVal(0)])
-                eq_or_violation(ctx, 'project-usage', js[rc], tot,
+                eq_or_violation(ctx, 'project-usage', js[rc],
+                                _tot(s, rc, members),
                                 'total %s of %s' % (rc, q))
-    # 1.38: grouped by consumer type with consumer counts
-    r = app.call('GET', '/usages?project_id=proj', version='1.38')
-    js = r.json['usages']
-    presence(ctx, 'type-usage', 'INSTANCE' in js, s.cons[1]['present'],
-             'INSTANCE group for proj')
-    if 'INSTANCE' in js:
-        eq_or_violation(ctx, 'type-usage', js['INSTANCE']['consumer_count'],
-                        1, 'consumer_count')
-        tot = z3.Sum(*[z3.If(zbool(pr), to_z3(u), 0)
-                       for (cc, p, rc), (pr, u) in s.alloc.items()
-                       if cc == 1 and rc == 'VCPU'])
-        presence(ctx, 'type-usage', 'VCPU' in js['INSTANCE'],
-                 s.cons[1]['present'], 'VCPU in INSTANCE group')
-        if 'VCPU' in js['INSTANCE']:
-            eq_or_violation(ctx, 'type-usage', js['INSTANCE']['VCPU'], tot,
-                            'VCPU total of INSTANCE consumers')
-    r = app.call('GET', '/usages?project_id=proj2&consumer_type=unknown',
-                 version='1.38')
-    js = r.json['usages']
-    presence(ctx, 'type-usage', 'unknown' in js, s.cons[2]['present'],
-             'unknown group for proj2')
+    # 1.38: grouped by consumer type with consumer counts; filters
+    for q, groups in (
+            ('project_id=proj', {'INSTANCE': (1,), 'unknown': (2,)}),
+            ('project_id=proj&consumer_type=unknown', {'unknown': (2,)}),
+            ('project_id=proj&consumer_type=INSTANCE', {'INSTANCE': (1,)}),
+            ('project_id=proj&consumer_type=all', {'all': (1, 2)}),
+            ('project_id=proj&user_id=user2&consumer_type=unknown',
+             {'unknown': (2,)}),
+            ('project_id=proj&user_id=user&consumer_type=unknown', {})):
+        r = app.call('GET', '/usages?' + q, version='1.38')
+        if r.status != 200:
+            runner.violation(ctx, 'read-status', '%s: %d' % (q, r.status))
+            continue
+        js = r.json['usages']
+        for g in ('INSTANCE', 'unknown', 'all'):
+            members = groups.get(g, ())
+            exists = Or(*[s.cons[c]['present'] for c in members]) \
+                if members else False
+            presence(ctx, 'type-usage', g in js, exists,
+                     'group %s of %s' % (g, q))
+            if g not in js:
+                continue
+            cnt = z3.Sum(*([z3.If(zbool(s.cons[c]['present']), 1, 0)
+                            for c in members] + [z3.IntVal(0)]))
+            eq_or_violation(ctx, 'type-usage', js[g]['consumer_count'], cnt,
+                            'consumer_count of %s in %s' % (g, q))
+            for rc in RCS:
+                presence(ctx, 'type-usage', rc in js[g],
+                         _any(s, rc, members), '%s in group %s of %s' % (
+                             rc, g, q))
+                if rc in js[g]:
+                    eq_or_violation(ctx, 'type-usage', js[g][rc],
+                                    _tot(s, rc, members),
+                                    'total %s of group %s in %s' % (rc, g, q))
 
 
 READS = dict(provider=read_provider, inventories=read_inventories,
